@@ -255,7 +255,7 @@ def entryLoop (i : Bytes) : Nat → Stage → EntryVerdict
     | .failErr => .err
     | .panic => .panic
 
-def checkEntryName (i : Bytes) : EntryVerdict := entryLoop i (i.length + 5) .privateShared
+def checkEntryName (i : Bytes) : EntryVerdict := entryLoop i (i.length + 6) .privateShared
 
 def entryName : Parser Bytes := do
   let s ← astring
